@@ -573,6 +573,43 @@ func (tr *FnCtx) storeTargets(addr ssa.Value) ([]Comp, bool) {
 	return tr.W.fieldComps(root, prefix, content), true
 }
 
+// loopInterferes: the loop body acquires the monitor lock or calls a callee that does (lockmode none), i.e. between
+// two iterations this goroutine does not hold the lock and other critical sections may run.
+func (tr *FnCtx) loopInterferes(li *loopInfo) bool {
+	if !tr.lockSweep || !tr.hasRelies() {
+		return false
+	}
+	for b := range li.blocks {
+		for _, in := range b.Instrs {
+			ci, ok := in.(ssa.CallInstruction)
+			if !ok {
+				continue
+			}
+			if _, isGo := in.(*ssa.Go); isGo {
+				continue
+			}
+			c := ci.Common()
+			if c.IsInvoke() {
+				continue
+			}
+			f, _ := tr.calleeOf(c)
+			if f == nil {
+				continue
+			}
+			switch f.String() {
+			case "(*sync.RWMutex).Lock", "(*sync.RWMutex).RLock", "(*sync.Mutex).Lock":
+				return true
+			}
+			if pk := fnPkg(f); pk != nil && pk.Pkg.Path() == tr.Pkg.Path() {
+				if spec := tr.W.C.Funcs[pkgKey(pk.Pkg.Path(), fnRelName(f))]; spec != nil && tr.lockModeOf(spec, f) == "none" {
+					return true
+				}
+			}
+		}
+	}
+	return false
+}
+
 func (tr *FnCtx) havocLoop(li *loopInfo, st *State) {
 	mods := map[string]Comp{}
 	all := false
@@ -643,6 +680,30 @@ func (tr *FnCtx) havocLoop(li *loopInfo, st *State) {
 					all = true
 				}
 				addC(cs...)
+			}
+		}
+	}
+	// ghost variables assigned by anchored 'ghost' statements of this function may change in any loop of it
+	// (the anchor may lie inside the loop): havoc them at every loop head (over-approximation)
+	if tr.Spec != nil {
+		for _, at := range tr.Spec.Ats {
+			if at.Kind != "ghost" {
+				continue
+			}
+			name := ""
+			switch l := at.Target.(type) {
+			case EIdent:
+				name = l.Name
+			case EIdx:
+				if id, ok := l.X.(EIdent); ok {
+					name = id.Name
+				}
+			}
+			if name != "" {
+				func() {
+					defer func() { recover() }()
+					addC(tr.resolveComps(name, tr.Pkg)...)
+				}()
 			}
 		}
 	}
